@@ -16,7 +16,7 @@ PROP = dict(
     rule='TLS 1.2/1.1 and DTLS 1.2/1.0 (c06_seq12*): case = (victim role, TLS 1.2 RSA/ECDHE x GCM/CBC-SHA256 or TLS 1.1 RSA/ECDHE CBC-SHA or DTLS 1.2 RSA/ECDHE GCM or DTLS 1.0 RSA/ECDHE CBC-SHA (DTLS: full handshakes with cookie exchange, with/without client-auth; every puppet record is one datagram, lock-step, no timers), full or session-id-resumed handshake or (client victim) a session that holds an id AND a RFC 5077 ticket, which the server accepts (abbreviated) or declines (full), or (client victim) the RFC 5077 3.4 ticket-only client (first ServerHello had an empty session id + NewSessionTicket, so the next ClientHello carries the ticket and no id: MatrixSSL "ticket in limbo") whose ticket is accepted silently / accepted with extension + new ticket / declined / declined with a fresh ticket, ServerHello session id empty or fresh, RSA and ECDHE, TLS 1.2 and 1.1 - BOTH continuations (abbreviated under the ticket secret, full) are legal for such a client, a trace is illegal only if it leaves both languages; the puppet holds the ticket secret in all of these modes, so a Finished behind a stray CCS is keyed with it, or (client victim) history mode ticket-from-cut-handshake = the same sslSessionId_t went through a handshake with a ticket-issuing server that was cut after ServerHelloDone / NewSessionTicket / NewSessionTicket+CCS (silently or by a fatal alert): the next ClientHello must offer no id and no ticket (signature ticket-of-incomplete-handshake-offered) and only a full handshake is legal, (server victim, session-ticket keys loaded) client offering the SessionTicket extension empty or with a bogus ticket so that the server is in its ticket-issuing state, client-auth, EMS pairing, 0-2 ops from {delete i, duplicate i (same bytes or rebuilt), '
          'swap (i,i+1), re-tag type byte, substitute by another message, inject any message of the alphabet (HelloRequest, second Hello, ServerKeyExchange in RSA mode, '
          'CertificateRequest, Certificate, empty Certificate, CertificateVerify, NewSessionTicket, CCS, application data, warning alert, unknown type) at any position, '
-         'flip one bit of Finished, wrong record protection (plaintext after CCS / protected before it), the complete legal trace of a neighbouring mode (client-auth, key exchange or resumption flipped), CCS body not 01, wrong-session-secret = abbreviated handshake keyed by the peer with an all-zero or random master secret, optionally with an empty ServerHello session id, Finished / CertificateVerify split over several records (every split with the 4-byte header in the first record) honest = legal or with all-zero / all-0xff / arbitrary / bit-flipped verify_data or signature, Finished / CertificateVerify body of the wrong length (0,11,13,36,1,24 / 0,4,130,n-1,n+1,n+36 bytes), DTLS only: record on the wrong epoch, message_seq gap or repeat, true retransmission (legal, must be ignored), 2-3 in-order handshake fragments}, '
+         'flip one bit of Finished, wrong record protection (plaintext after CCS / protected before it), the complete legal trace of a neighbouring mode (client-auth, key exchange or resumption flipped), CCS body not 01, wrong-session-secret = abbreviated handshake keyed by the peer with an all-zero or random master secret, optionally with an empty ServerHello session id, Finished / CertificateVerify split over several records (every split with the 4-byte header in the first record) honest = legal or with all-zero / all-0xff / arbitrary / bit-flipped verify_data or signature, Finished / CertificateVerify body of the wrong length (0,11,13,36,1,24 / 0,4,130,n-1,n+1,n+36 bytes), a HelloRequest (never hashed) in front of any item or at the end, in its own record or sharing the record with the next handshake message (server victim: must be refused; client victim mid-handshake: RFC 5246 7.4.1.1 refuse-or-ignore is read off the victim - dead right at that record = refused, otherwise the rest of the trace is judged as if the HelloRequest were absent, signature hello-request-neither-refused-nor-ignored; after completion: no verdict), DTLS only: record on the wrong epoch, message_seq gap or repeat, true retransmission (legal, must be ignored), 2-3 in-order handshake fragments}, '
          'trailing application data under the session keys, fragmentation / record coalescing / receive chunking); '
          'c06_seq12_singles enumerates every single op over 81 modes (8 DTLS, 13 ticket-only) with default framing, c06_seq12 samples 0/1/2 ops (10/50/40 %) with random framing; '
          'non-trivial = the first message outside the language reached a live victim (or the trace was legal / a proper prefix and ran to its end); '
